@@ -303,3 +303,18 @@ Example C15_flow_bind_example :
                            cn_st := {| trace := [SBind 4 (Some T1) [0; 1]; SAlter 4 T2 [0]; SAlter 4 T3 [0]];
                                        steps := [None; Some S1; Some S2]; sign := true; server := [] |} |}))).
 Proof. vm_compute. reflexivity. Qed.
+
+(* the anonymous bind returns from inside `if not self._auth:` (run_self does not observe the client then): the statements up to and including
+   `bind_ack = await self._send_pdu(bind, BindAck)`, after which bind_ack is returned at once, leave the client in the model's final state *)
+Theorem C15_flow_async_bind_anonymous_state : forall fuel (legs : list leg) srv ids,
+  match bind_run false legs srv ids with
+  | (Ok rs, s) => exists env' c' fl tk,
+      exec_block WH fuel (firstn 4 (pf_body k_flow_async_bind)) [("self", VO (OSelf (conn0 false legs srv))); ("contexts", VL (map ctxv ids))]
+        = Ok (Next env')
+      /\ lookup "self" env' = Some (VO (OSelf c')) /\ cn_st c' = s /\ lookup "bind_ack" env' = Some (VO (OAck false rs fl tk))
+  | (Raise e, _) =>
+      exec_block WH fuel (firstn 4 (pf_body k_flow_async_bind)) [("self", VO (OSelf (conn0 false legs srv))); ("contexts", VL (map ctxv ids))]
+        = Raise e
+  end.
+Proof. exact flow_async_bind_anonymous_state. Qed.
+Print Assumptions C15_flow_async_bind_anonymous_state.
